@@ -4,7 +4,7 @@ from __future__ import annotations
 import ast
 
 from sa import flow
-from sa.model import AnalysisError, unparse
+from sa.model import AnalysisError, dotted, unparse
 from sa.rules import LEVEL_TEXT, rule
 from sa.rules.util import bind_call, ctor_target, iter_body_nodes, own_methods, qual, reads_of_self
 
@@ -256,3 +256,55 @@ def r10d(ctx):
                 ctx.bad(cid, mod.loc(s2), f"{how} statements are left/right mirror images except for {diff}: `{b[:110]}` does to one side what its sibling does to the other side with a different {', '.join(sorted({y for _, y in diff}))} - the two inputs are not treated symmetrically")
             # larger differences: not a mirror pair at all
     ctx.floor("exact left/right mirror pairs", exact, 16)
+
+
+# ---------------------------------------------------------------------------------------------
+# R10e mirrored helper calls (head/tail, before/after ...) carry the same options
+# ---------------------------------------------------------------------------------------------
+_MIRROR_WORDS = [("head", "tail"), ("heads", "tails"), ("first", "last"), ("before", "after"), ("prev", "next"), ("ffill", "bfill"), ("lower", "upper")]
+_BUILTIN_CALLEES = {"min", "max", "next", "first", "last"}
+
+
+def _mirror_names(name):
+    toks = _re.split(r"(_)", name)
+    out = set()
+    for a, b in _MIRROR_WORDS:
+        for x, y in ((a, b), (b, a)):
+            if x in toks:
+                out.add("".join(y if t == x else t for t in toks))
+    return out
+
+
+@rule(
+    "R10e",
+    ["C02", "C10"],
+    """MIRRORED HELPER CALLS CARRY THE SAME OPTIONS: where one function calls two helpers whose names are mirror images
+    (compute_heads / compute_tails, _head_timedelta / _tail_timedelta ...) - the look-behind and the look-ahead half of
+    one algorithm - both calls pass the same keyword options and the same number of positional arguments. A grouping
+    key (`by=`) passed to one half only makes the two directions of the same operation disagree.""",
+)
+def r10e(ctx):
+    model = ctx.model
+    n = 0
+    for mod, cls, fn in model.all_functions():
+        byname = {}
+        for c in iter_body_nodes(fn):
+            if isinstance(c, ast.Call) and dotted(c.func):
+                nm = dotted(c.func).split(".")[-1]
+                if nm not in _BUILTIN_CALLEES and "." not in dotted(c.func).replace("self.", ""):
+                    byname.setdefault(nm, []).append(c)
+        fq = qual(cls, fn) if cls is not None else f"{mod.name.split('.', 1)[-1]}.{fn.name}"
+        for nm in sorted(byname):
+            for mn in sorted(_mirror_names(nm)):
+                if mn in byname and nm < mn:
+                    for i, c1 in enumerate(byname[nm]):
+                        for j, c2 in enumerate(byname[mn]):
+                            k1 = {k.arg for k in c1.keywords}
+                            k2 = {k.arg for k in c2.keywords}
+                            n += 1
+                            cid = f"{fq}:{nm}~{mn}#{i}.{j}"
+                            if k1 == k2 and len(c1.args) == len(c2.args):
+                                ctx.ok(cid, mod.loc(c1), f"both halves pass {sorted(x for x in k1 if x)} and {len(c1.args)} positionals")
+                            else:
+                                ctx.bad(cid, mod.loc(c2), f"`{ast.unparse(c1)[:90]}` and `{ast.unparse(c2)[:90]}` are the two halves of one operation but differ in {sorted(str(x) for x in (k1 ^ k2)) or 'positional arity'}: one direction ignores an option the other honours")
+    ctx.floor("mirrored helper call pairs", n, 2)
